@@ -25,7 +25,10 @@ BR_AROUND = {"alone": "%s", "between": "intro\n\n%s\noutro\n"}
 
 # malformed HTML lists: content that is not an <li> at every position of the list (fix_item_lists wraps it)
 STRAY = ["text", "<br/>", "text<br/>more", "<br/>text", "<b>bold</b>", "<div>d</div>", "<br/><br/>", "<span><br/></span>x", "[[Link]]", "<ref>r</ref>"]
-STRAY_LIST = {"ul": "<ul>%s</ul>\n", "ol": "<ol>%s</ol>\n", "ul-in-cell": "{|\n| <ul>%s</ul>\n|}\n", "nested": "<ul><li>o<ul>%s</ul></li></ul>\n"}
+STRAY_LIST = {"ul": "<ul>%s</ul>\n", "ol": "<ol>%s</ol>\n", "ul-in-cell": "{|\n| <ul>%s</ul>\n|}\n", "nested": "<ul><li>o<ul>%s</ul></li></ul>\n",
+              # a list that sits in a list without an <li> around it / inside another non-<li> child
+              "ul-in-ul": "<ul><ul>%s</ul></ul>\n", "ul-in-ol-after-li": "<ol><li>a</li><ul>%s</ul></ol>\n",
+              "ol-in-div-in-ul": "<ul><li>a</li><div><ol>%s</ol></div></ul>\n"}
 STRAY_POS = {"first": "%s<li>a</li><li>b</li>", "between": "<li>a</li>%s<li>b</li>", "last": "<li>a</li><li>b</li>%s", "only": "%s",
              "between-and-last": "<li>a</li>%s<li>b</li>%s"}
 
